@@ -261,9 +261,33 @@ class Obj(object):
             s=lambda x: _s1(f.compute_sensitivities(shape(x))))
 
 
+_HELD = []
+
+
 def _s1(res):
     score, sens = res
+    # the caller keeps what was returned: remember the array itself and what
+    # it held at the moment it was handed out
+    if isinstance(sens, np.ndarray):
+        _HELD.append((sens, [x for x in np.ravel(sens)]))
     return (score,) + tuple(np.ravel(sens))
+
+
+def _held_results_intact():
+    for arr, snap in _HELD:
+        now = [x for x in np.ravel(arr)]
+        if len(now) != len(snap):
+            return False
+        for a, b in zip(now, snap):
+            if a is b:
+                continue
+            if isinstance(a, float) and isinstance(b, float) and (
+                    a == b or (a != a and b != b)):
+                continue
+            if hasattr(a, 't') and hasattr(b, 't') and a.t is b.t:
+                continue
+            return False
+    return True
 
 
 def assume_support(B, x):
@@ -291,6 +315,7 @@ def case_seq(B, cfg):
     assume_support(B, pts['x'] + pts['y'])
     seen = {}
     reconfigured = set()
+    del _HELD[:]
     for step, (oi, op, which) in enumerate(seq):
         o = objs[oi]
         if op == 'f':
@@ -334,6 +359,8 @@ def case_seq(B, cfg):
                 tot = tot + t_
             B.eq('step %d: sum(pointwise) = value at the same point '
                  '(object %d)' % (step, oi), tot, v[0])
+        B.fact('step %d: gradients returned earlier still hold what they '
+               'held when they were returned' % step, _held_results_intact())
 
 
 def case_user_mutation(B, cfg):
